@@ -67,7 +67,11 @@ def gen_table(rng, names):
     tbl = []
     for n in names:
         k = rng.choice([0, 2, 3, 4, 5, 6, 8])
-        tbl.append([n, [rng.choice(SEEDS + [rng.randint(-10 ** 6, 10 ** 6)]) for _ in range(k)]])
+        seeds = [rng.choice(SEEDS + [rng.randint(-10 ** 6, 10 ** 6)]) for _ in range(k)]
+        if k >= 2 and rng.random() < 0.35:          # equal consecutive entries ([5, 5, 6]): two replications on one seed
+            j = rng.randrange(k - 1)
+            seeds[j + 1] = seeds[j]
+        tbl.append([n, seeds])
     return tbl
 
 
@@ -109,12 +113,25 @@ def gen_case(rng: random.Random):
         upd = {"kind": "table", "table": gen_table(rng, listed), "fb": fb}
         maxlen = max([len(v) for _, v in upd["table"]] + [1])
     calls = []
+    last = None
     for _ in range(rng.randint(1, 4)):
-        if rng.random() < 0.8:
-            calls.append({"all": gen_r(rng, maxlen)})
+        x = rng.random()
+        if last is not None and x < 0.25:
+            r = last                                  # the same replication number again
+        elif last is not None and not isinstance(last, (dict, bool)) and x < 0.35:
+            r = last + 1                              # the next one (equal consecutive table entries)
+        elif x < 0.45:
+            r = 0                                     # fallback: seed = original seed + 0
         else:
-            calls.append({"one": rng.randrange(ns), "r": gen_r(rng, maxlen)})
-    return {"updater": upd, "streams": streams, "calls": calls}
+            r = gen_r(rng, maxlen)
+        last = r
+        if rng.random() < 0.8:
+            calls.append({"all": r})
+        else:
+            calls.append({"one": rng.randrange(ns), "r": r})
+    # the streams are used between the updates: draws from every stream before each call, 2 recorded after it
+    pre = [rng.choice([0, 1, 1, 2, 3, 5]) for _ in calls]
+    return {"updater": upd, "streams": streams, "calls": calls, "pre": pre, "post": 2}
 
 
 def permuted_sibling(rng: random.Random, case):
@@ -150,12 +167,32 @@ def listed_seeds(case, name):
     return None
 
 
+_SEQ: dict = {}
+STATS = {"updates_to_the_current_seed_of_a_used_stream": 0, "updates_followed_by_compared_draws": 0}
+
+
+def seq_of(seed: int, n: int):
+    """the first n outputs (hex) of a new generator seeded with `seed`: what a stream that was just given
+    this seed must draw, whatever it drew before"""
+    row = _SEQ.get(seed)
+    if row is None or len(row) < n:
+        g = random.Random(seed)
+        row = [g.random().hex() for _ in range(max(n, 16))]
+        _SEQ[seed] = row
+    return row
+
+
 def oracle_case(case, res):
     """Clauses that concern one configuration in one process.  Returns a list of
     (signature, description)."""
     bad = []
     streams = case["streams"]
     cur = [s["cur"] for s in streams]
+    pre = case.get("pre") or [0] * len(case["calls"])
+    npost = case.get("post", 0)
+    # where every stream stands in the sequence of which seed (None: not a stream object)
+    gen = [None if s["kind"] == "badstream" else [s["cur"], 0] for s in streams]
+    draws_ok = True
     fbx = {(i, json.dumps(r)): v for i, r, v in res["fb_expect"]}
     for ci, (c, ob) in enumerate(zip(case["calls"], res["obs"])):
         r = c.get("all", c.get("r"))
@@ -225,12 +262,58 @@ def oracle_case(case, res):
                 for i in range(len(streams)):
                     if i not in targets and seeds[i] != cur[i]:
                         bad.append(("other-stream-changed", f"{where}: stream #{i} not addressed but seed {cur[i]} -> {seeds[i]}"))
+        # ---- the numbers drawn after the call.  A stream that the call gave a seed (all addressed streams of an
+        # accepted call; in a refused update_seeds the streams in front of the first refused one) must draw the
+        # sequence of a NEW generator with that seed, however many numbers it drew before; every other stream goes on
+        # where it was.
+        if must_refuse and exc in ("TypeError", "ValueError"):
+            first = min(must_refuse)
+            updated = [i for i in targets if 0 <= first and i < first] if "all" in c else []
+        elif not must_refuse and exc is None:
+            updated = list(targets)
+        else:
+            updated, draws_ok = [], False          # the call itself went wrong (reported above): nothing to predict
+        for i, g in enumerate(gen):
+            if g is not None:
+                g[1] += pre[ci]
+        if draws_ok and not bad:
+            for i in updated:
+                if gen[i] is not None and isinstance(seeds[i], int):
+                    if seeds[i] == cur[i] and gen[i][1] > 0:
+                        STATS["updates_to_the_current_seed_of_a_used_stream"] += 1
+                    STATS["updates_followed_by_compared_draws"] += 1
+                    gen[i] = [seeds[i], 0]
+            for i, g in enumerate(gen):
+                d_i = ob.get("draws", [None] * len(gen))[i]
+                if npost and g is not None and isinstance(d_i, str):
+                    bad.append(("draw-after-update-raises", f"{where}: next_float() of stream #{i} {streams[i]['name']!r} gives {d_i}"))
+                    draws_ok = False
+                    break
+                if not npost or g is None or not isinstance(d_i, list):
+                    continue
+                got = ob["draws"][i]
+                want = seq_of(g[0], g[1] + npost)[g[1]:g[1] + npost]
+                if got != want:
+                    if i in updated:
+                        same = seeds[i] == cur[i]
+                        sig = "update-to-the-current-seed-does-not-restart-the-stream" if same else "draws-after-update-not-from-assigned-seed"
+                        bad.append((sig, f"{where}: stream #{i} {streams[i]['name']!r} was given seed {seeds[i]}"
+                                         + (" (equal to its current seed)" if same else "") +
+                                         f" after drawing numbers; its next {npost} draws are {got}, a new generator with that seed draws {want} - "
+                                         "the numbers of this replication depend on what was drawn before the update"))
+                    else:
+                        bad.append(("draws-of-stream-not-updated-disturbed",
+                                    f"{where}: stream #{i} {streams[i]['name']!r} was not given a seed by this call; it draws {got}, "
+                                    f"its sequence (seed {g[0]}, position {g[1]}) continues {want}"))
+                    draws_ok = False
+                    break
+                g[1] += npost
         cur = seeds
     # first draws after the last call
     for i, s in enumerate(streams):
-        if s["kind"] != "badstream" and isinstance(cur[i], int) and res["draws"][i] is not None:
-            if res["draws"][i] != random.Random(cur[i]).random().hex():
-                bad.append(("first-draw-not-from-assigned-seed", f"stream #{i}: seed {cur[i]} but first draw {res['draws'][i]}"))
+        if draws_ok and not bad and gen[i] is not None and isinstance(cur[i], int) and res["draws"][i] is not None:
+            if res["draws"][i] != seq_of(gen[i][0], gen[i][1] + 1)[gen[i][1]]:
+                bad.append(("first-draw-not-from-assigned-seed", f"stream #{i}: seed {cur[i]} (position {gen[i][1]}) but draws {res['draws'][i]}"))
     return bad
 
 
@@ -360,6 +443,46 @@ CORPUS = [
 ]
 
 
+def shrink_case(case, sig, hashseed):
+    """smaller configurations (one stream alone, a prefix of the calls) that still violate the same clause: all
+    candidates are evaluated in one child interpreter, the smallest failing one is the replay"""
+    cands = []
+    ncalls = len(case["calls"])
+    for n in range(1, ncalls + 1):
+        for i, st in enumerate(case["streams"]):
+            calls = []
+            for c in case["calls"][:n]:
+                if "all" in c:
+                    calls.append(dict(c))
+                elif c["one"] == i:
+                    calls.append({"one": 0, "r": c["r"]})
+                else:
+                    calls.append(None)
+            keep = [k for k, c in enumerate(calls) if c is not None]
+            if not keep:
+                continue
+            pre_all = case.get("pre") or [0] * ncalls
+            pre, acc = [], 0
+            for k in range(n):
+                acc += pre_all[k]
+                if calls[k] is not None:
+                    pre.append(acc)
+                    acc = 0
+                else:
+                    acc += case.get("post", 0)      # the draws recorded after a dropped call still happen before the next one
+            cands.append({"updater": case["updater"], "streams": [st], "calls": [calls[k] for k in keep], "pre": pre,
+                          "post": case.get("post", 0)})
+    try:
+        outs = C.run_impl_json(DRIVER, cands, timeout=120, env_extra={"PYTHONHASHSEED": hashseed})
+    except Exception:  # noqa
+        return None, None, None
+    for cand, o in zip(cands, outs):
+        for s2, w2 in oracle_case(cand, o):
+            if s2 == sig:
+                return cand, o, w2
+    return None, None, None
+
+
 # ------------------------------------------------------------------ main
 def run_children(cases, hashseeds, timeout=600):
     from concurrent.futures import ThreadPoolExecutor
@@ -452,8 +575,12 @@ def main(tier: str) -> int:
                     break
             # (2)-(5) clauses on one configuration
             for sig, what in oracle_case(case, res):
-                note(sig, what, {"case": case, "observations": res["obs"], "PYTHONHASHSEED": hashseeds[0],
-                                 "how": "python harness/c13_impl.py < [case] with PYTHONPATH=/repo/src"})
+                if sig in failures:
+                    continue
+                small, sres, swhat = shrink_case(case, sig, hashseeds[0])
+                note(sig, swhat or what, {"case": small or case, "observations": (sres or res)["obs"], "PYTHONHASHSEED": hashseeds[0],
+                                          "how": "python harness/c13_impl.py < [case] with PYTHONPATH=/repo/src; before call i every stream "
+                                                 "draws pre[i] numbers, after it `post` numbers are recorded per stream (observations.draws)"})
             # permuted order / other current seeds: same seeds by name
             if idx in sibling_of:
                 a, b = cases[sibling_of[idx]], case
@@ -490,11 +617,15 @@ def main(tier: str) -> int:
     run.cov["distinct_nontrivial"] = len(nontriv)
     run.cov["rule"] = ("random configurations: 1-6 named streams (names incl. empty, non-ASCII, astral, NUL, lone surrogate; ~10% ill-typed keys / "
                        "stream objects), SimpleStreamUpdater or StreamSeedUpdater with random seed table and simple / custom / nested fallback, "
-                       "1-4 update_seeds / update_seed calls with replication numbers valid, beyond the list, negative, ill-typed, bool, huge; "
+                       "1-4 update_seeds / update_seed calls with replication numbers valid, repeated, 0, beyond the list, negative, ill-typed, bool, huge, "
+                       "the streams drawing numbers before and after every call; "
                        "40% of the configurations re-run listed in another order with other current seeds; every configuration in "
                        f"{len(hashseeds)} child interpreters; non-trivial = distinct configuration with >= 2 streams in which an accepted update_seeds "
                        "with r > 0 reached the name-hash path (simple updater, or simple/nested fallback for an unlisted stream)")
     run.cov["histogram"] = hist
+    run.cov["draws"] = dict(STATS, rule="0-5 numbers drawn from every stream before each call, the 2 draws of every stream after each call "
+                            "compared with a new random.Random(assigned seed) (updated streams) or with the continuation of its sequence (others); "
+                            "25% of the calls repeat the previous replication number, 35% of the seed lists have equal consecutive entries")
     run.cov["permuted_sibling_pairs"] = len(sibling_of)
     for idx in range(n_corpus, min(n_corpus + 2, len(cases))):
         run.add_sample({"case": cases[idx], "observations": base[idx]["obs"]})
